@@ -408,11 +408,11 @@ impl UserLengths {
                 lens.push((k as i64 + d) as usize);
             }
         }
-        if !quick {
-            // 4.1 layout: 32 bytes before the name, one NUL and a 1-byte trailer behind it
-            for total in [(1usize << 24) - 2, (1 << 24) - 1, 1 << 24, (1 << 24) + 5] {
-                lens.push(total - 34);
-            }
+        // a handshake response that needs a continuation packet (4.1 layout: 32 bytes before the
+        // name, one NUL and a 1-byte trailer behind it)
+        let totals: &[usize] = if quick { &[(1 << 24) + 5, (1 << 24) + 3_000_001] } else { &[(1 << 24) - 2, (1 << 24) - 1, 1 << 24, (1 << 24) + 5, (1 << 24) + 3_000_001, (1 << 25) + 77] };
+        for total in totals {
+            lens.push(total - 34);
         }
         UserLengths { lens }
     }
@@ -433,7 +433,7 @@ impl UserLengths {
             tail: 0,
             split: false,
             collation: 0x21,
-            read_size: if n > 200_000 { [0, 65536, 4096][d[3] as usize] } else { [0, 7, 4096][d[3] as usize] },
+            read_size: if n > 200_000 { [0, 1 << 20, 65536][d[3] as usize] } else { [0, 7, 4096][d[3] as usize] },
         }
     }
 }
@@ -460,7 +460,7 @@ pub fn build(quick: bool) -> Check {
     Check {
         id: "C11",
         level: "model_checking",
-        rule: "handshake responses: all 2^16 lower capability words x 4 upper words (the layout follows CLIENT_PROTOCOL_41) x accept/reject, without and with a TLS configuration (plaintext clients); 262 user names (empty, every single non-NUL byte, 255 and 70000 bytes, non-UTF-8) x 6 character-set bytes (utf8, latin1, utf8mb4, binary, ...) x 8 trailers x both layouts x accept/reject x 0..2 pipelined commands (and, when rejecting, a further command cut off inside its packet) x TLS configured or not; every handshake sequence id; user names of every length 0..2100 and around every power of two up to 2^20 (thorough: up to a handshake response that needs a continuation packet), position-dependent bytes, both layouts, accept/reject, whole reads and reads of 7 / 4096 bytes; 0..2 pipelined queries followed by nothing / COM_QUIT / an EXECUTE of an unknown statement / a command cut off by the end of the stream, in one read or with the handshake response in a read of its own, accept and reject. Oracle: first packet is a protocol-10 greeting with id 0 accepted by refwire and mysql_common, CLIENT_PROTOCOL_41 set, CLIENT_SSL set iff a TLS configuration is offered; after_authentication exactly once with the exact user bytes before any command; reject -> ERR 1045/28000 at id+1, run_on returns the shim's error, no command callback; accept -> OK at id+1 and the pipelined commands are served (their replies delivered even when the connection then ends with an error); CLIENT_SSL without a TLS configuration -> Err and no callback at all.".into(),
+        rule: "handshake responses: all 2^16 lower capability words x 4 upper words (the layout follows CLIENT_PROTOCOL_41) x accept/reject, without and with a TLS configuration (plaintext clients); 262 user names (empty, every single non-NUL byte, 255 and 70000 bytes, non-UTF-8) x 6 character-set bytes (utf8, latin1, utf8mb4, binary, ...) x 8 trailers x both layouts x accept/reject x 0..2 pipelined commands (and, when rejecting, a further command cut off inside its packet) x TLS configured or not; every handshake sequence id; user names of every length 0..2100 and around every power of two up to 2^20 and two that make the handshake response need a continuation packet (thorough: six around the packet limit and beyond 2^25), position-dependent bytes, both layouts, accept/reject, whole reads and reads of 7 / 4096 bytes (1 MiB / 64 KiB for the multi-packet ones); 0..2 pipelined queries followed by nothing / COM_QUIT / an EXECUTE of an unknown statement / a command cut off by the end of the stream, in one read or with the handshake response in a read of its own, accept and reject. Oracle: first packet is a protocol-10 greeting with id 0 accepted by refwire and mysql_common, CLIENT_PROTOCOL_41 set, CLIENT_SSL set iff a TLS configuration is offered; after_authentication exactly once with the exact user bytes before any command; reject -> ERR 1045/28000 at id+1, run_on returns the shim's error, no command callback; accept -> OK at id+1 and the pipelined commands are served (their replies delivered even when the connection then ends with an error); CLIENT_SSL without a TLS configuration -> Err and no callback at all.".into(),
         assumptions: vec!["masks with CLIENT_SSL against a TLS-offering shim are C18's scenarios (they need a real TLS client)".into()],
         bounds: json!({"capability_words": 65536, "upper_words": 4, "users": 262, "trailers": 8}),
         exhaustive: true,
